@@ -193,6 +193,7 @@ def check_unit(spec_path, do_twins=True, keep=True):
     auto_consts = []
     auto_lets = {}
     prelets = {}
+    inlines = []
     r = run_verus(gpath, u.get("rlimit"))
     for _round in range(4):
         missing = sorted(set(re.findall(r"error\[E0425\]: cannot find value `([A-Z][A-Z0-9_]+)` in this scope", r["stderr"])))
@@ -235,17 +236,23 @@ def check_unit(spec_path, do_twins=True, keep=True):
             if stmt:
                 auto_lets.setdefault(idx, []).insert(0, (name, stmt))
                 added = True
+        # ... and to free helper functions of the same file the unit does not know: inlined at their call sites
+        for name in sorted(set(re.findall(r"cannot find function `([a-z_][a-z0-9_]*)` in this scope", r["stderr"]))):
+            if name not in inlines:
+                inlines.append(name)
+                added = True
         if not added:
             break
         prelets = {k: [x[1] for x in v] for k, v in auto_lets.items()}
         try:
-            text, meta = vspec.generate(u, REPO, SPECS, extra=extra, prelets=prelets)
+            text, meta = vspec.generate(u, REPO, SPECS, extra=extra, prelets=prelets, inline=inlines)
         except Exception:
             break
         open(gpath, "w").write(text)
         r = run_verus(gpath, u.get("rlimit"))
     res["auto_consts"] = auto_consts
     res["auto_lets"] = [x[1] for v in auto_lets.values() for x in v]
+    res["inlined_helpers"] = [e["name"] for it in meta["items"] for e in it["edits"] if e.get("kind") == "inline-helper"]
     res["extra"] = extra
     res["assumption_sites"] = scan_assumptions(text)
     # closure literals without a contract, per extracted item: Verus knows nothing about what such a closure returns,
@@ -321,7 +328,7 @@ def check_unit(spec_path, do_twins=True, keep=True):
         jobs = []
         for idx, it in enumerate(meta["items"]):
             if it["contracted"]:
-                ttext, _ = vspec.generate(u, REPO, SPECS, twin_of=idx, extra=extra, prelets=prelets)
+                ttext, _ = vspec.generate(u, REPO, SPECS, twin_of=idx, extra=extra, prelets=prelets, inline=inlines)
                 tpath = os.path.join(gdir, "%s_twin%d.rs" % (u["unit"], idx))
                 open(tpath, "w").write(ttext)
                 jobs.append((it["label"], tpath))
